@@ -9,6 +9,7 @@ import Drx.TextSpec
 import Drx.Codec
 import DrxProofs.Py
 import DrxProofs.Text
+import DrxProofs.TextCodec
 namespace Drx.C16
 open Drx Drx.Fmap Drx.Stxt Drx.TextSpec
 
@@ -100,5 +101,46 @@ theorem pipeline (dec : Dec) (h : FmapHdr) (fonts : List FontSpec) (unused : Lis
 
 example : FmapValid ⟨0, 0, 0, 0, 28, 8, 1, 2, 3, 4⟩ [⟨3, 0, [0x41, 0x72, 0x69, 0x61, 0x6C], [0]⟩, ⟨-2, 7, [], []⟩]
     [⟨-1, 0, 99⟩] [] (List.replicate 18 0) [1] := by decide
+
+/-! ## the configured encodings (tables regenerated from CPython on every run) -/
+
+/-- latin_1 reads every byte as the code point of the same number -/
+theorem latin1_identity (b : UInt8) : decodeByte .latin1 b = some (Char.ofNat b.toNat) := by
+  have := latin1_table b.toNat (UInt8.toNat_lt b)
+  simpa using this
+
+/-- ascii reads bytes below 0x80 as themselves and rejects every other byte -/
+theorem ascii_strict (b : UInt8) :
+    decodeByte .ascii b = if b.toNat < 128 then some (Char.ofNat b.toNat) else none := by
+  have := ascii_table b.toNat (UInt8.toNat_lt b)
+  simpa using this
+
+/-- mac_roman (the default) and cp1252 agree with ASCII on the lower half -/
+theorem low_half_ascii (b : UInt8) (h : b.toNat < 128) :
+    decodeByte .macRoman b = some (Char.ofNat b.toNat) ∧ decodeByte .cp1252 b = some (Char.ofNat b.toNat) := by
+  have := low_half_table b.toNat h
+  simpa using this
+
+/-- under the default encoding every byte value is a character: decoding a text never fails -/
+theorem macRoman_total (b : UInt8) : (decodeByte .macRoman b).isSome = true := by
+  have := macRoman_total_table b.toNat (UInt8.toNat_lt b)
+  simpa using this
+
+/-- the four table codecs give exactly one character per stored byte (so style-run start positions index the decoded text) -/
+theorem table_codec_one_char_per_byte (c : Codec) (hc : c ≠ .utf8) (bs : Bytes) (t : List Char)
+    (h : decodeText c bs = .ok t) : t.length = bs.length := decodeText_table_length c hc bs t h
+
+/-! ## the property -/
+
+/-- C16 at full strength (model level): both round trips, for every decoding function -/
+def C16_full : Prop :=
+  (∀ (dec : Dec) (fm : List FontInfo) (gap text : Bytes) (fds : Int) (runs : List RunSpec) (tail : Bytes),
+      StxtValid gap text fds runs →
+      parseStxt dec fm (encStxt gap text fds runs tail) = (dec text).bind fun t => .ok ⟨t, runs.map (RunSpec.meaning fm)⟩) ∧
+  (∀ (dec : Dec) (h : FmapHdr) (fonts : List FontSpec) (unused : List SlotSpec) (htail bpre btail : Bytes),
+      FmapValid h fonts unused htail bpre btail →
+      parseFmap dec (encFmap h fonts unused htail bpre btail) = decodeFonts dec fonts)
+
+theorem C16 : C16_full := ⟨stxt_roundtrip, fmap_roundtrip⟩
 
 end Drx.C16
